@@ -291,7 +291,7 @@ theorem route_exactly_once (env0 : Env) (gets posts : Routes) (pre : List Op)
     (hreg : (Routes.of gets posts m).lookup p = some (.fn f)) (har : f.arity = 1)
     (hup : pre.any isWebc = false) :
     request (after env0 gets posts pre) m p ps =
-      if (handlerNow env0 pre f).arity = 1 then
+      if (handlerNow env0 pre f).callArity = 1 then
         (respOf ((handlerNow env0 pre f).beh ps), [((handlerNow env0 pre f).id, ps)])
       else (.bad, []) := by
   have ht := after_table env0 gets posts pre m p
@@ -300,7 +300,7 @@ theorem route_exactly_once (env0 : Env) (gets posts : Routes) (pre : List Op)
   have he : (after env0 gets posts pre).env = envAfter env0 pre := after_env env0 gets posts pre
   unfold request
   simp only [hu, ht, Option.map_some, closureOf, invoke, he, handlerNow]
-  by_cases hg : (resolve (envAfter env0 pre) (wrap env0 f)).arity = 1
+  by_cases hg : (resolve (envAfter env0 pre) (wrap env0 f)).callArity = 1
   · simp [hg]
   · simp [hg, respOf]
 
@@ -310,7 +310,7 @@ theorem route_exactly_once (env0 : Env) (gets posts : Routes) (pre : List Op)
 theorem params_exactly_by_method (env0 : Env) (gets posts : Routes) (pre : List Op)
     (m : Method) (p : Path) (query form : Params) (f : Fn)
     (hreg : (Routes.of gets posts m).lookup p = some (.fn f)) (har : f.arity = 1)
-    (hup : pre.any isWebc = false) (hg : (handlerNow env0 pre f).arity = 1) :
+    (hup : pre.any isWebc = false) (hg : (handlerNow env0 pre f).callArity = 1) :
     (requestRaw (after env0 gets posts pre) m p query form).2 =
       [((handlerNow env0 pre f).id, match m with | .get => query | .post => form)] := by
   unfold requestRaw
@@ -324,7 +324,7 @@ theorem failure_contained (env0 : Env) (gets posts : Routes) (pre : List Op)
     (m : Method) (p : Path) (ps : Params) (f : Fn)
     (hreg : (Routes.of gets posts m).lookup p = some (.fn f)) (har : f.arity = 1)
     (hup : pre.any isWebc = false)
-    (hg : (handlerNow env0 pre f).arity = 1)
+    (hg : (handlerNow env0 pre f).callArity = 1)
     (hraise : (handlerNow env0 pre f).beh ps = .raised) :
     (step (after env0 gets posts pre) (.req m p ps)).2 =
         (.resp .bad, [((handlerNow env0 pre f).id, ps)]) ∧
@@ -392,10 +392,14 @@ theorem burst_independent (s : Server) (reqs : List (Method × Path × Params)) 
 
 /-! ### non-vacuity and the late-capture variant -/
 
-def f1 : Fn := ⟨1, 1, fun _ => .ret "one"⟩
-def f2 : Fn := ⟨2, 1, fun ps => .ret ((ps.lookup "k").getD ":undefined")⟩
-def f3 : Fn := ⟨3, 1, fun _ => .raised⟩
-def f1' : Fn := ⟨4, 1, fun _ => .ret "uno"⟩
+def f1 : Fn := { id := 1, arity := 1, beh := fun _ => .ret "one" }
+def f2 : Fn := { id := 2, arity := 1, beh := fun ps => .ret ((ps.lookup "k").getD ":undefined") }
+def f3 : Fn := { id := 3, arity := 1, beh := fun _ => .raised }
+def f1' : Fn := { id := 4, arity := 1, beh := fun _ => .ret "uno" }
+/-- `h1::render("<p>";"hello ";)`: a triad with two fixed arguments and one open slot -/
+def fProj : Fn := { id := 5, arity := 3, openSlots := 1, beh := fun _ => .ret "<p>hello world" }
+/-- `h1::render("<p>";;)`: two open slots, no longer a monad -/
+def fProj2 : Fn := { id := 6, arity := 3, openSlots := 2, beh := fun _ => .ret "never" }
 def envW : Env := [("h1", .fn f1), ("h2", .fn f2), ("h3", .fn f3)]
 def getsW : Routes := [("/a", .fn f1), ("/b", .fn f2), ("/c", .fn f3), ("/skip", .call)]
 def postsW : Routes := [("/a", .fn f2)]
@@ -411,6 +415,31 @@ example :
     ([.resp (.ok "one"), .resp (.ok "é&="), .resp .bad, .resp .notFound, .resp .notAllowed,
       .resp .notFound, .defined, .resp (.ok "uno"), .closed 1, .resp .noAnswer, .closed 0],
      [(1, []), (2, [("k", "é&=")]), (3, [("q", "1")]), (4, [("x", "y")])]) := by
+  decide
+
+/-- **projection_handler_served**: a route whose handler symbol is re-bound between requests to a
+    projection with exactly one open slot — whatever the arity of the underlying function and
+    however many arguments are fixed — is served: one invocation with exactly the request's
+    parameters, the body is the text of the result. -/
+theorem projection_handler_served (env0 : Env) (gets posts : Routes) (pre : List Op)
+    (m : Method) (p : Path) (ps : Params) (f : Fn)
+    (hreg : (Routes.of gets posts m).lookup p = some (.fn f)) (har : f.arity = 1)
+    (hup : pre.any isWebc = false) (hopen : (handlerNow env0 pre f).openSlots = 1) :
+    request (after env0 gets posts pre) m p ps =
+      (respOf ((handlerNow env0 pre f).beh ps), [((handlerNow env0 pre f).id, ps)]) := by
+  rw [route_exactly_once env0 gets posts pre m p ps f hreg har hup]
+  simp [Fn.callArity, hopen]
+
+/-- non-vacuity: `h1` re-bound to a projection of a triad with one open slot is served (200), to one
+    with two open slots it is answered 400 without running anything; and counting the fixed
+    arguments instead of the open slots (`callArityFixedCounted`) would demand 2 arguments of the
+    former: the slip that answers 400 for a perfectly good monad. -/
+example :
+    (run (build .early envW getsW postsW)
+      [.define "h1" (.fn fProj), .req .get "/a" [("k", "world")],
+       .define "h1" (.fn fProj2), .req .get "/a" []]).2 =
+    ([.defined, .resp (.ok "<p>hello world"), .defined, .resp .bad], [(5, [("k", "world")])]) ∧
+    fProj.callArity = 1 ∧ fProj.callArityFixedCounted = 2 := by
   decide
 
 /-- the hypotheses of `route_exactly_once` / `failure_contained` are satisfiable -/
